@@ -84,7 +84,7 @@ def oracle(ctx, widen=1):
             cases += 1
             if not isinstance(base, str):
                 solved.add(tr)
-            sc = rng.choice([2.5, 0.4, 1.7, 1.0004])
+            sc = rng.choice([2.5, 0.4, 1.7, 1.0004, 100.0, 1000.0, 0.01])      # incl. a change of the length unit (A -> pm, A -> 0.1 um)
             nn = rng.choice([2, 3, 0.5])
             eps = rng.choice([17.0, -40.0, 123.0, 17.0, -40.0, 1e-4, -3e-4, 2e-3])      # incl. the minute re-mounting corrections of an alignment
             nm0 = [k for k in cons if cons[k] is not True]
